@@ -55,8 +55,13 @@ func (w *World) clone() *World {
 }
 
 func (w *World) commitTo(parent *World) {
-	parent.stores = w.stores
-	parent.Events = w.Events
+	// flush a copy: the cache context stays usable (and isolated) after Write, as in the SDK
+	for k, kv := range w.stores {
+		nkv := &KV{cells: make([]*Cell, len(kv.cells))}
+		copy(nkv.cells, kv.cells)
+		parent.stores[k] = nkv
+	}
+	parent.Events = append([]Value{}, w.Events...)
 }
 
 func (w *World) store(key *Value) *KV {
